@@ -7,6 +7,8 @@ from gen.util import kvs, tparse, pick_outcome
 
 def _cfg(rng, service):
     kind = rng.choice(["aimd", "vegas"])
+    if not service and rng.random() < 0.2:
+        kind = "ctl"           # the bare AimdController (record_successes, reset, Clone, config)
     if service:
         mn = rng.choice([1, 1, 1, 2, 2, 0]) if rng.random() < 0.9 else 3
         mx = mn + rng.choice([0, 1, 1, 2, 3, 4])
@@ -22,13 +24,26 @@ def _cfg(rng, service):
     thr = rng.choice([0, 1, 2, 3, 5, 9]) if not service else rng.choice([0, 1, 2, 3, 5, 10])
     h = "kind=%s min=%d max=%d initial=%d inc=%d fnum=%d fden=%d thr_ms=%d alpha=%d beta=%d" % (
         kind, mn, mx, initial, rng.choice([1, 1, 2, 3]), fnum, fden, thr, alpha, beta)
+    # the construction path: the algorithm's own builder (what older op files meant), `Aimd::new(AimdConfig…)` /
+    # `Vegas::new(…)` / `AimdConfig::new().with_…`, or the builders handed out by `AdaptiveLimiterLayer::builder()`
+    via = rng.choice(["builder", "builder", "new", "layer"])
+    if via != "builder":
+        h += " via=" + via
     return kind, h
 
 
-def _prog(rng, n, kind):
+def _prog(rng, n, kind, extra=0.0):
+    """`extra`: share of the entry points beside record_success / record_failure / limit(): `X` record_dropped, `m` / `M`
+    min_limit() / max_limit(); on the bare controller also `N<k>` record_successes(k), `R` reset(), `K` clone()"""
     s = ""
     for _ in range(n):
         r = rng.random()
+        if extra > 0 and rng.random() < extra:
+            if kind == "ctl" and rng.random() < 0.7:
+                s += rng.choice(["N%d" % rng.choice([0, 1, 2, 2, 3, 5, 9]), "N%d" % rng.choice([2, 3, 9]), "R", "K"])
+            else:
+                s += rng.choice(["X", "m", "M"])
+            continue
         if r < 0.55:
             d = rng.choice([0, 1, 2, 3, 0, 1, 2, 3, 0, 1, 2, 3, 4, 5, 6, 7, 8, 9]) if kind == "vegas" else rng.choice([0, 1, 2, 3, 7, 4, 9])
             s += "S%d" % d
@@ -41,12 +56,17 @@ def _prog(rng, n, kind):
 
 # atomic steps of one operation run alone (upper bound), used only to size schedules
 def _steps(prog, kind):
-    return (10 if kind == "vegas" else 2) * prog.count("S") + 2 * prog.count("F") + prog.count("L")
+    return ((10 if kind == "vegas" else 2) * prog.count("S") + 2 * prog.count("F") + prog.count("L") + 2 * prog.count("N")
+            + 5 * prog.count("K") + sum(prog.count(ch) for ch in "XmMR"))
 
 
 def gen_limit(rng, tier):
     kind, h = _cfg(rng, False)
     ops = []
+    extra = (rng.choice([0.3, 0.5, 0.7]) if kind == "ctl" else rng.choice([0.0, 0.0, 0.1, 0.25]))
+    if kind == "ctl" and rng.random() < 0.5:
+        # batches of successes just below the ceiling: the SUM must be clamped
+        ops.append("manual warm prog=%s" % "".join(rng.choice(["F", "N1", "N2", "N3", "N9", "L", "S0"]) for _ in range(rng.randint(2, 8))))
     if kind == "vegas" and rng.random() < 0.85:
         # Vegas adjusts only from the 10th sample on: straddle the threshold
         n = rng.choice([7, 8, 9, 9, 10, 12])
@@ -54,10 +74,10 @@ def gen_limit(rng, tier):
         w = "".join("S%d" % (d if rng.random() < 0.8 else rng.choice([0, 1, 2, 3])) for _ in range(n))
         ops.append("manual warm prog=%s%s" % (w, "L" if rng.random() < 0.5 else ""))
     elif rng.random() < 0.3:
-        ops.append("manual warm prog=%s" % _prog(rng, rng.randint(1, 4), kind))
+        ops.append("manual warm prog=%s" % _prog(rng, rng.randint(1, 4), kind, extra))
     for _ in range(rng.choice([1, 1, 2, 3])):
         nt = rng.choice([1, 2, 2, 2, 3, 3])
-        progs = [_prog(rng, rng.choice([0, 1, 1, 2, 2, 3, 4]), kind) for _ in range(nt)]
+        progs = [_prog(rng, rng.choice([0, 1, 1, 2, 2, 3, 4]), kind, extra) for _ in range(nt)]
         for t, p in enumerate(progs):
             ops.append("manual thread t=%d prog=%s" % (t, p))
         total = sum(_steps(p, kind) for p in progs)
@@ -163,9 +183,33 @@ def _thread_round(rng, ops, kind):
         ops.append("probe ready")
 
 
+_SVC_OPS = ("arrive ", "probe ", "manual check", "manual ready", "manual thread", "manual sched", "manual warm")
+
+
+def _tag_svc(ops, n0, k):
+    """the operations ops[n0:] are made on service k of the layer"""
+    if k:
+        for i in range(n0, len(ops)):
+            if ops[i].startswith(_SVC_OPS) and " svc=" not in ops[i]:
+                ops[i] += " svc=%d" % k
+
+
 def gen_service(rng, tier):
     kind, h = _cfg(rng, True)
     ops = []
+    # construction paths: the service over the `Algorithm` enum or over the concrete Aimd / Vegas; the layer made by
+    # `AdaptiveLimiterLayer::new` or by `into_layer()`; service 0 built from the layer value or from a clone of it
+    if rng.random() < 0.3:
+        h += " alg=direct"
+    if rng.random() < 0.3:
+        h += " lay=into"
+    if rng.random() < 0.25:
+        h += " lclone=1"
+    # several services built from the one layer value (odd ones from a clone of it, taken before any service existed and
+    # used after services were built from the original): they share the algorithm, nothing else
+    nsvc = rng.choice([1, 1, 1, 1, 2, 2, 3])
+    # in_flight() read after every single operation
+    ifl = rng.random() < 0.12
     # callers that keep the finished call future alive (`keep=1`: a pinned future polled by reference, select! over
     # &mut fut) and drop it later (`release c`), in none / some / most / all of the calls of a case
     keepp = rng.choice([0.0, 0.0, 0.25, 0.5, 0.8, 1.0])
@@ -192,7 +236,7 @@ def gen_service(rng, tier):
         n = rng.choice([8, 9, 9, 10, 11])
         ops.append("manual warm prog=%s" % "".join("S%d" % rng.choice([7, 7, 7, 4, 5]) for _ in range(n)))
     elif rng.random() < 0.2:
-        ops.append("manual warm prog=%s" % _prog(rng, rng.randint(1, 3), kind))
+        ops.append("manual warm prog=%s" % _prog(rng, rng.randint(1, 3), kind, rng.choice([0.0, 0.3])))
     # callers whose request makes the wrapped service's `call()` itself panic (no future is ever returned; the caller
     # catches the unwind and the limiter stays in use): in none / some / many of the arrivals of a case
     cpp = rng.choice([0.0, 0.0, 0.1, 0.25, 0.5])
@@ -220,8 +264,19 @@ def gen_service(rng, tier):
     def kp():
         return " keep=1" if rng.random() < keepp else ""
 
+    def pick_svc():
+        return 0 if nsvc == 1 or rng.random() < 0.5 else rng.randrange(nsvc)
+
+    cur = {"n0": len(ops), "k": 0}
     for _ in range(rng.randint(8, 45)):
+        # everything this step does is done on one service of the layer
+        _tag_svc(ops, cur["n0"], cur["k"])
+        cur["n0"], cur["k"] = len(ops), pick_svc()
         r = rng.random()
+        if nsvc > 1 and rng.random() < 0.08:
+            ops.append("probe bounds")
+            ops.append("probe limit")
+            continue
         if hp > 0 and rng.random() < hp:
             # a handle is polled for readiness (again); or a caller arrives through a handle
             hd = rng.choice(waiting) if waiting and rng.random() < 0.6 else rng.randint(1, 3)
@@ -328,10 +383,17 @@ def gen_service(rng, tier):
             ops.append("probe in_flight")
             ops.append("probe limit")
             ops.append("probe ready")
+    _tag_svc(ops, cur["n0"], cur["k"])
     # quiescence: everything that can finish finishes, the rest is cancelled; then a burst up to the limit
     ops.append("adv %d" % rng.choice([0, 1, 20]))
     ops.append("settle")
     ops.append("probe in_flight")
+    for k in range(1, nsvc):
+        ops.append("probe in_flight svc=%d" % k)
+        if rng.random() < 0.5:
+            ops.append("probe ready svc=%d" % k)
+    if rng.random() < 0.15:
+        ops.append("probe bounds")
     if keepers:
         # finished futures are still held by their callers: they do not count, they do not block
         ops.append("probe limit")
@@ -343,6 +405,18 @@ def gen_service(rng, tier):
         ops.append("probe in_flight")
         ops.append("probe limit")
         ops.append("probe ready")
+        for k in range(1, nsvc):
+            # nothing is running on any service of the layer: each reports zero; then a burst on one of the OTHER
+            # services up to the shared limit and past it, while service 0 stays empty
+            ops.append("probe in_flight svc=%d" % k)
+            if rng.random() < 0.5:
+                ops.append("probe limit svc=%d" % k)
+                for i in range(rng.choice([1, 2, 4])):
+                    ops.append("arrive %d inner=1000:ok svc=%d" % (300 + 10 * k + i, k))
+                ops.append("probe in_flight svc=%d" % k)
+                ops.append("probe ready svc=%d" % k)
+                ops.append("probe in_flight")
+                ops.append("probe ready")
         if tp > 0 and rng.random() < 0.5:
             # nothing else is running: after the round the limiter must report zero in flight
             _thread_round(rng, ops, kind)
@@ -385,11 +459,48 @@ def gen_service(rng, tier):
         ops.append("probe in_flight")
         ops.append("probe limit")
         ops.append("probe ready")
+    if ifl:
+        # `in_flight()` observed after every operation, on the service the operation used
+        out = []
+        for o in ops:
+            out.append(o)
+            if not o.startswith(("manual thread", "probe in_flight")):
+                k = [w for w in o.split() if w.startswith("svc=")]
+                out.append("probe in_flight" + (" " + k[0] if k else ""))
+        ops = out
     return {"header": "adaptive " + h, "ops": ops}
 
 
 def gen(rng, tier):
     return gen_limit(rng, tier) if rng.random() < 0.5 else gen_service(rng, tier)
+
+
+# ----------------------------------------------------------------------------- the two models of one case
+
+def canon_step(lines):
+    """what the step-by-step transcriptions claim: every line except the protocol verdicts"""
+    return [l for l in lines if " trace-" not in l]
+
+
+def canon_protocol(lines):
+    """what the protocol-level model claims: everything that happens before the first round of threads (sequential
+    behaviour does not depend on how the atomics are sequenced) and the verdict of the verified checker on every
+    observed value-level trace. Every round (and every warm-up) must come with its verdict: a log in which one is
+    missing makes no protocol-level claim, and the whole log is compared instead."""
+    out = []
+    in_rounds = False
+    rounds = verdicts = 0
+    for l in lines:
+        w = l.split()
+        if len(w) > 1 and w[1] in ("step", "skip"):
+            in_rounds = True
+        if " trace-" in l:
+            verdicts += 1
+        elif len(w) == 3 and w[1] == "limit":
+            rounds += 1        # every `warm` and every `sched` ends with the limit it left behind
+        if " trace-" in l or not in_rounds:
+            out.append(l)
+    return out if verdicts >= rounds else list(lines)
 
 
 # ----------------------------------------------------------------------------- monitors (implementation log only)
@@ -408,15 +519,68 @@ def _keepers(case):
     return ks
 
 
+def _svc_kv(words):
+    for x in words:
+        if x.startswith("svc=") and x[4:].isdigit():
+            return int(x[4:])
+    return 0
+
+
+class _Svcs:
+    """which service of the layer (`svc=<k>`, default 0) each caller, each `manual ready` poll and each round of threads /
+    warm-up uses — read off the op lines; a caller stays with the service that it first named (ahead-of-time check or
+    arrival). Callers >= 1000 are the ones the threads of a round make."""
+    def __init__(self, case):
+        self.home = {}
+        self.readies = []      # service of every `manual ready` op, in order (each logs exactly one `ready` line)
+        self.rounds = []       # service of every `manual warm` / `manual sched` op, in order (each logs one bare `limit` line)
+        for o in case["ops"]:
+            w = o.split()
+            if len(w) < 2:
+                continue
+            k = _svc_kv(w[2:])
+            if w[0] == "arrive":
+                self.home.setdefault(w[1], k)
+            elif w[0] == "manual" and w[1] == "check":
+                c = [x[2:] for x in w[2:] if x.startswith("c=")]
+                if c:
+                    self.home.setdefault(c[0], k)
+            elif w[0] == "manual" and w[1] == "ready":
+                self.readies.append(k)
+            elif w[0] == "manual" and w[1] in ("warm", "sched"):
+                self.rounds.append(k)
+        self.ri = 0            # rounds / warm-ups completed so far in the log
+        self.qi = 0            # `ready` lines seen so far
+
+    def note(self, w):
+        """call with every log line (words)"""
+        if len(w) == 2 and w[0] == "limit":
+            self.ri += 1
+
+    def of_caller(self, c):
+        if c.isdigit() and int(c) >= 1000:
+            return self.rounds[self.ri] if self.ri < len(self.rounds) else 0
+        return self.home.get(c, 0)
+
+    def of_ready_line(self):
+        k = self.readies[self.qi] if self.qi < len(self.readies) else 0
+        self.qi += 1
+        return k
+
+    @staticmethod
+    def of_probe(w):
+        return _svc_kv(w[4:])
+
+
 def _via_handle(case):
-    """{caller: handle} for the callers that use a persistent handle (`arrive c … h=<h>`)"""
+    """{caller: "service:handle"} for the callers that use a persistent handle (`arrive c … h=<h> [svc=<k>]`)"""
     via = {}
     for o in case["ops"]:
         w = o.split()
         if len(w) > 1 and w[0] == "arrive":
             for x in w[2:]:
                 if x.startswith("h=") and x[2:].isdigit() and int(x[2:]) > 0:
-                    via[w[1]] = x[2:]
+                    via[w[1]] = "%d:%s" % (_svc_kv(w[2:]), x[2:])
     return via
 
 
@@ -482,17 +646,56 @@ def mon_bounds(case, lines, meta):
         for v in _observed_limits(w):
             if not v.isdigit() or not (mn <= int(v) <= mx):
                 return "line %d: observed limit %s outside [min_limit=%d, max_limit=%d] (%s)" % (i, v, mn, mx, l)
+        if w and w[0] == "probe" and w[1] == "bounds" and w[3] != "%d,%d" % (mn, mx):
+            return "line %d: min_limit(),max_limit() report %s, configured [%d,%d]" % (i, w[3], mn, mx)
+    if not svc:
+        # what every operation of a feedback program reports, in program order: `L` a limit (judged above), `m` / `M` the
+        # configured bounds themselves, `K` (bare controller) the clone's limit before and after one success of its own
+        progs = []      # programs in the order their outputs are logged: warm-ups and the threads of each round
+        pend = {}
+        for o in case["ops"]:
+            w = o.split()
+            k = kvs(o)
+            if w[:2] == ["manual", "warm"]:
+                progs.append(k.get("prog", ""))
+            elif w[:2] == ["manual", "thread"]:
+                pend[int(k.get("t", "0"))] = k.get("prog", "")
+            elif w[:2] == ["manual", "sched"]:
+                n = max(pend) + 1 if pend else 0
+                progs += [pend.get(t, "") for t in range(n)]
+                pend = {}
+        outs = []
+        for l in lines:
+            _, w = tparse(l)
+            if w and w[0] in ("warm", "th"):
+                outs.append([] if w[-1] == "none" else w[-1].split(","))
+        ctl = cfg.get("kind") == "ctl"
+        for p, o in zip(progs, outs):
+            j = 0
+            for ch in p:
+                n = {"L": 1, "m": 1, "M": 1, "K": 2 if ctl else 0}.get(ch, 0)
+                vals = o[j:j + n]
+                j += n
+                if len(vals) < n:
+                    break
+                if ch == "m" and vals[0] != str(mn):
+                    return "min_limit() reported %s, configured min_limit %d (program %s -> %s)" % (vals[0], mn, p, ",".join(o))
+                if ch == "M" and vals[0] != str(mx):
+                    return "max_limit() reported %s, configured max_limit %d (program %s -> %s)" % (vals[0], mx, p, ",".join(o))
     return None
 
 
 def mon_inflight(case, lines, meta):
-    """in_flight() equals the number of inner calls started and not finished / panicked / dropped, at every
-    probe; in particular 0 once nothing is running — a call stops counting when it completes or fails, also while
-    the caller keeps the finished future object alive; a call whose inner `call()` panicked before returning a future
-    (`result c panic` without an `inner_call`) never started an inner call and must not count either"""
+    """in_flight() of a service equals the number of ITS inner calls started and not finished / panicked / dropped, at
+    every probe; in particular 0 once none of them is running — a call stops counting when it completes or fails, also
+    while the caller keeps the finished future object alive; a call whose inner `call()` panicked before returning a
+    future (`result c panic` without an `inner_call`) never started an inner call and must not count either. Services
+    built from one layer value share the algorithm, not the counter: calls in flight on another service do not count."""
     if not _is_service(case):
         return None
-    live = set()
+    sv = _Svcs(case)
+    live = {}              # service -> serials of its inner calls in flight
+    owner = {}             # serial -> service
     hd = _Held(case, meta)
     rounds = 0
     called = set()
@@ -504,38 +707,48 @@ def mon_inflight(case, lines, meta):
             continue
         hd.after(w)
         if w[0] == "inner_call":
-            live.add(w[2])
+            k = sv.of_caller(w[1])
+            live.setdefault(k, set()).add(w[2])
+            owner[w[2]] = k
             called.add(w[1])
         elif w[0] in ("inner_done", "inner_drop"):
-            live.discard(w[2])
+            live.get(owner.get(w[2], 0), set()).discard(w[2])
         elif w[0] == "th" and w[1] == "0":
             rounds += 1
         elif w[0] == "result" and w[2] == "panic" and w[1] not in called:
             cpanics.append(w[1])
         elif w[0] == "probe" and w[1] == "in_flight":
-            if not w[3].isdigit() or int(w[3]) != len(live):
-                return "line %d: in_flight() = %s but %d inner calls are started and not finished/dropped%s%s%s%s" % (
-                    i, w[3], len(live), " (quiescent)" if not live else "", hd.note(),
+            k = sv.of_probe(w)
+            mine = live.get(k, set())
+            if not w[3].isdigit() or int(w[3]) != len(mine):
+                others = sum(len(v) for kk, v in live.items() if kk != k)
+                return "line %d: in_flight() = %s%s but %d inner calls are started and not finished/dropped%s%s%s%s%s" % (
+                    i, w[3], " on service %d" % k if k else "", len(mine), " (quiescent)" if not mine else "", hd.note(),
                     " [after %d round(s) of threads using clones of the limiter: every call they started has completed, "
                     "failed, panicked or been dropped]" % rounds if rounds else "",
                     " [the inner service's call() itself panicked for caller(s) %s: a call that panicked is not in flight]"
-                    % ",".join(cpanics) if cpanics else "")
+                    % ",".join(cpanics) if cpanics else "",
+                    " [%d call(s) in flight on OTHER services built from the same layer: each service counts its own]" % others if others else "")
+        sv.note(w)
     return None
 
 
 def mon_ready(case, lines, meta):
-    """a readiness check is refused iff at least limit calls are in flight at that step (limit = the value
-    probed since the last feedback to the algorithm); a refusal always fires the waker. Every `poll_ready` of a
+    """a readiness check is refused iff at least limit calls are in flight at that step ON THAT SERVICE (limit = the value
+    probed since the last feedback to the algorithm — the algorithm, hence the limit, is shared by the services of one
+    layer; the in-flight count is per service); a refusal always fires the waker. Every `poll_ready` of a
     persistent handle is such a check — also when an earlier poll of the same handle was only waiting for the inner
     service: `Ready` with limit calls in flight admits a caller that checked readiness at the limit.
     (Rounds of threads are not judged here: check-then-call of concurrent callers is not atomic.)"""
     if not _is_service(case):
         return None
-    live = set()
+    sv = _Svcs(case)
+    lives = {}             # service -> serials in flight
+    owner = {}
     limit = None           # last probed limit, valid until the algorithm gets feedback
     prechecked = set()
     via = _via_handle(case)
-    hready = set()         # handles whose most recent poll_ready answered Ready (judged at that poll)
+    hready = set()         # "service:handle" whose most recent poll_ready answered Ready (judged at that poll)
     hd = _Held(case, meta)
     called = set()
     cpanics = []           # callers whose inner `call()` itself panicked (no inner call was started)
@@ -543,6 +756,9 @@ def mon_ready(case, lines, meta):
     def note():
         return hd.note() + (" [the inner service's call() itself panicked for caller(s) %s: a call that panicked is not in flight]"
                             % ",".join(cpanics) if cpanics else "")
+
+    def on(k):
+        return " on service %d" % k if k else ""
 
     for i, l in enumerate(lines):
         _, w = tparse(l)
@@ -557,52 +773,65 @@ def mon_ready(case, lines, meta):
         elif w[0] == "inner_call" or (w[0] == "result" and w[2] == "panic" and w[1] not in called):
             # `call()` was made on the strength of a readiness check (an inner `call()` that panics starts no inner call)
             c = w[1]
+            k = sv.of_caller(c)
+            live = lives.setdefault(k, set())
             if c in prechecked:
                 prechecked.discard(c)
             elif c in via and via[c] in hready:
                 hready.discard(via[c])
             elif limit is not None and len(live) >= limit:
-                return "line %d: caller %s admitted by a readiness check with %d calls in flight, limit %d" % (i, c, len(live), limit)
+                return "line %d: caller %s admitted by a readiness check with %d calls in flight%s, limit %d" % (i, c, len(live), on(k), limit)
             if w[0] == "inner_call":
                 live.add(w[2])
+                owner[w[2]] = k
                 called.add(c)
             else:
                 cpanics.append(c)
         elif w[0] == "inner_done":
-            live.discard(w[2])
+            lives.get(owner.get(w[2], 0), set()).discard(w[2])
             if w[3] != "panic":
                 limit = None
         elif w[0] == "inner_drop":
-            live.discard(w[2])
+            lives.get(owner.get(w[2], 0), set()).discard(w[2])
         elif w[0] == "warm":
             limit = None
         elif w[0] == "probe" and w[1] == "limit":
             limit = int(w[3]) if w[3].isdigit() else None
         elif w[0] == "result" and w[2].startswith("notready"):
+            k = sv.of_caller(w[1])
+            live = lives.get(k, set())
             if w[1] in via:
                 hready.discard(via[w[1]])
             if w[2] == "notready" and limit is not None and len(live) < limit:
-                return "line %d: caller %s refused readiness with %d calls in flight, limit %d%s" % (i, w[1], len(live), limit, note())
+                return "line %d: caller %s refused readiness with %d calls in flight%s, limit %d%s" % (i, w[1], len(live), on(k), limit, note())
         elif w[0] == "check":
+            k = sv.of_caller(w[1])
+            live = lives.get(k, set())
             if w[2] == "ready":
                 prechecked.add(w[1])
             if limit is not None and (w[2] == "ready") != (len(live) < limit):
-                return "line %d: ahead-of-time readiness check of %s answered %s with %d calls in flight, limit %d%s" % (i, w[1], w[2], len(live), limit, note())
+                return "line %d: ahead-of-time readiness check of %s answered %s with %d calls in flight%s, limit %d%s" % (i, w[1], w[2], len(live), on(k), limit, note())
         elif w[0] == "ready":
-            # one poll_ready of the persistent handle w[1]
+            # one poll_ready of the persistent handle w[1] of the service the `manual ready` op names
+            k = sv.of_ready_line()
+            live = lives.get(k, set())
+            hk = "%d:%s" % (k, w[1])
             if w[2] == "ready":
-                hready.add(w[1])
+                hready.add(hk)
                 if limit is not None and len(live) >= limit:
-                    return ("line %d: poll_ready of handle %s answered Ready with %d calls in flight, limit %d: a caller that "
-                            "checked readiness with limit calls already in flight is admitted" % (i, w[1], len(live), limit))
+                    return ("line %d: poll_ready of handle %s%s answered Ready with %d calls in flight, limit %d: a caller that "
+                            "checked readiness with limit calls already in flight is admitted" % (i, w[1], on(k), len(live), limit))
             else:
-                hready.discard(w[1])
+                hready.discard(hk)
                 if w[2] == "refused" and limit is not None and len(live) < limit:
-                    return "line %d: poll_ready of handle %s refused for capacity with %d calls in flight, limit %d%s" % (
-                        i, w[1], len(live), limit, note())
+                    return "line %d: poll_ready of handle %s%s refused for capacity with %d calls in flight, limit %d%s" % (
+                        i, w[1], on(k), len(live), limit, note())
         elif w[0] == "probe" and w[1] == "ready":
+            k = sv.of_probe(w)
+            live = lives.get(k, set())
             if limit is not None and (w[3] == "1") != (len(live) < limit):
-                return "line %d: probe caller readiness = %s with %d calls in flight, limit %d%s" % (i, w[3], len(live), limit, note())
+                return "line %d: probe caller readiness = %s with %d calls in flight%s, limit %d%s" % (i, w[3], len(live), on(k), limit, note())
+        sv.note(w)
     return None
 
 
@@ -615,6 +844,11 @@ def transitions(case, lines, meta=None):
     kind = cfg.get("kind", "aimd")
     if not _is_service(case):
         tags.append("L:kind-" + kind)
+        tags.append("L:via-" + cfg.get("via", "builder"))
+        for o in case["ops"]:
+            for ch in kvs(o).get("prog", "") if o.startswith("manual") else "":
+                if ch in "XmMRK" or (ch == "N" and kind == "ctl"):
+                    tags.append("L:op-" + ch)
         prev = None
         for l in lines:
             _, w = tparse(l)
@@ -635,6 +869,35 @@ def transitions(case, lines, meta=None):
                 tags.append("L:final-at-min" if v == mn else "L:final-at-max" if v == mx else "L:final-inside")
         return tags
     tags.append("A:kind-" + kind)
+    tags.append("A:via-" + cfg.get("via", "builder"))
+    tags.append("A:alg-" + cfg.get("alg", "enum"))
+    tags.append("A:lay-" + cfg.get("lay", "new"))
+    if cfg.get("lclone") == "1":
+        tags.append("A:layer-cloned")
+    sv = _Svcs(case)
+    per = {}               # service -> serials in flight
+    own = {}
+    for l in lines:
+        _, w = tparse(l)
+        if not w:
+            continue
+        if w[0] == "inner_call":
+            k = sv.of_caller(w[1])
+            per.setdefault(k, set()).add(w[2])
+            own[w[2]] = k
+            if k:
+                tags.append("A:call-on-other-service")
+            if sum(1 for v in per.values() if v) >= 2:
+                tags.append("A:two-services-loaded")
+        elif w[0] in ("inner_done", "inner_drop"):
+            per.get(own.get(w[2], 0), set()).discard(w[2])
+        elif w[0] == "probe" and w[1] == "bounds":
+            tags.append("A:probe-bounds")
+        elif w[0] == "probe" and _Svcs.of_probe(w):
+            tags.append("A:probe-other-service")
+            if w[1] == "in_flight" and w[3] == "0" and any(v for kk, v in per.items() if kk != _Svcs.of_probe(w)):
+                tags.append("A:zero-while-other-service-loaded")
+        sv.note(w)
     live = set()
     last_limit = None
     hd = _Held(case, meta)
@@ -757,7 +1020,11 @@ def nontrivial(case, lines, tags):
     return any(t in ("A:result-notready", "A:dropped-running", "A:result-panic", "A:check-ready") for t in tags)
 
 
-ALL_TR = ["L:kind-aimd", "L:kind-vegas", "L:step", "L:skip", "L:switch", "L:warm", "L:read",
+ALL_TR = ["L:kind-ctl", "L:via-builder", "L:via-new", "L:via-layer", "L:op-X", "L:op-m", "L:op-M", "L:op-N", "L:op-R", "L:op-K",
+          "A:via-builder", "A:via-new", "A:via-layer", "A:alg-enum", "A:alg-direct", "A:lay-new", "A:lay-into", "A:layer-cloned",
+          "A:call-on-other-service", "A:two-services-loaded", "A:probe-bounds", "A:probe-other-service",
+          "A:zero-while-other-service-loaded",
+          "L:kind-aimd", "L:kind-vegas", "L:step", "L:skip", "L:switch", "L:warm", "L:read",
           "L:final-at-min", "L:final-at-max", "L:final-inside",
           "A:kind-aimd", "A:kind-vegas", "A:inner_call", "A:in-flight-over-limit", "A:dropped-running",
           "A:result-ok", "A:result-err", "A:result-panic", "A:result-notready", "A:check-ready", "A:check-refused",
@@ -791,11 +1058,16 @@ SPECS = {
         "monitors": [("c13-limit-in-bounds", mon_bounds), ("c13-in-flight-exact", mon_inflight), ("c13-ready-iff-capacity", mon_ready)],
         "transitions": transitions,
         "nontrivial": nontrivial,
+        "canon": canon_step, "canon_protocol": canon_protocol,
         "all_transitions": ALL_TR,
-        "model_modules": ["TR.Model.Limit", "TR.Model.Adaptive", "TR.Lemmas.Limit", "TR.Lemmas.Adaptive", "TR.Mutants.AdaptiveNoGuard"],
-        "lean_files": ["TR.Model.Limit", "TR.Model.Adaptive", "TR.Lemmas.Limit", "TR.Lemmas.Adaptive", "TR.Mutants.AdaptiveNoGuard"],
+        "model_modules": ["TR.Model.Limit", "TR.Model.LimitTrace", "TR.Model.Adaptive", "TR.Model.AdaptiveMulti", "TR.Lemmas.Limit", "TR.Lemmas.LimitTrace", "TR.Lemmas.Adaptive", "TR.Lemmas.AdaptiveMulti", "TR.Mutants.AdaptiveNoGuard"],
+        "lean_files": ["TR.Model.Limit", "TR.Model.LimitTrace", "TR.Model.Adaptive", "TR.Model.AdaptiveMulti", "TR.Lemmas.Limit", "TR.Lemmas.LimitTrace", "TR.Lemmas.Adaptive", "TR.Lemmas.AdaptiveMulti", "TR.Mutants.AdaptiveNoGuard"],
         "sizes": (600, 30000),
-        "rule": "two kinds of seeded cases, mixed 1:1. `limit …`: AIMD / Vegas built through the public builders, 1-3 rounds of 1-3 OS threads "
+        "rule": "two kinds of seeded cases, mixed 1:1. `limit …`: AIMD / Vegas (and, in 20 %, the bare AimdController `kind=ctl`: record_successes(k) with "
+                "k in 0..9 incl. batches just below the ceiling, reset(), clone(), config()) built through one of three construction paths (`via=`: the "
+                "algorithm's builder, Aimd::new(AimdConfig..) / Vegas::new(..) / AimdConfig::new().with_.., or the builders of "
+                "AdaptiveLimiterLayer::builder().aimd() / .vegas()), programs that also use record_dropped(), min_limit(), max_limit() (0 / 10 / 25 % of the "
+                "operations; 30-70 % for the controller), 1-3 rounds of 1-3 OS threads "
                 "running feedback programs (record_success with latencies 2^20..2^23 ns and a few non-dyadic ones, record_failure, limit()) under a "
                 "random schedule of atomic-operation turns (incl. turns for finished / non-existent threads), optional sequential warm-up straddling "
                 "Vegas's min_samples=10, min 0..5, max=min+0..20, initial below/inside/above the range, dyadic decrease factors 0..1. `adaptive …`: "
@@ -814,7 +1086,13 @@ SPECS = {
                 "`probe in_flight` after every round, also with nothing else running. Callers whose request makes the wrapped service's call() itself "
                 "panic before it returns a future (`arrive … callpanic=1`, in 0 / 10 / 25 / 50 % of the arrivals of a case: fresh clones, clones "
                 "checked ahead of time, persistent handles, the final burst; at every load level incl. the last free slot), followed by in_flight / "
-                "ready reads, and a run of 1-5 of them at quiescence. distinct = distinct implementation log; non-trivial = an interleaving in which the schedule switches between "
+                "ready reads, and a run of 1-5 of them at quiescence. Construction: the service over the Algorithm enum or over the concrete Aimd / Vegas "
+                "(`alg=direct`, 30 %), the layer made by AdaptiveLimiterLayer::new or by into_layer() (`lay=into`, 30 %), service 0 built from a clone of the "
+                "layer (`lclone=1`, 25 %); 2-3 services built from the one layer value at their first use (`svc=<k>` on arrivals, checks, handles, probes, "
+                "warm-ups and rounds of threads; odd ones from a clone of the layer taken before any service existed; 3 of 7 cases), with per-service "
+                "in_flight / ready probes at quiescence, after dropall (a burst on another service while service 0 is empty) and `probe bounds` "
+                "(min_limit(), max_limit()); in 12 % of the cases in_flight() is read after every single operation. Every round of threads and every "
+                "warm-up carries the value-level trace of its atomics (`@tr=`) for the protocol-level checker. distinct = distinct implementation log; non-trivial = an interleaving in which the schedule switches between "
                 "running threads (limit) / a refusal, a cancelled running call, a panic or an ahead-of-time check (service)",
         "level_text": "Theorems TR.Props.C13.{limit_in_bounds, limit_in_bounds_final, limit_in_bounds_rounds, limit_is_last_store, vegas_choice_arbitrary, "
                       "seq_limit_in_bounds, aimd_budget_controller_in_bounds}: for every configuration with min <= max and decrease factor <= 1, AIMD and "
@@ -844,7 +1122,19 @@ SPECS = {
                       "TR.Mutants.AdaptiveNoGuard: the pinned service (no guard) "
                       "with the kernel-checked witness (two calls dropped => in_flight = 2 and every readiness check refused, forever); "
                       "TR.Mutants.AdaptiveSlotAtDrop (same file): the guard owned by the future object (slot given back at drop, not at completion) "
-                      "with its witness (limit 1, one kept completed call => in_flight = 1, nothing running, readiness refused).",
+                      "with its witness (limit 1, one kept completed call => in_flight = 1, nothing running, readiness refused). "
+                      "Protocol level {trace_limit_in_bounds, trace_limit_in_bounds_prefix, trace_rounds_in_bounds, vegas_three_results, "
+                      "trace_in_flight_exact, trace_in_flight_prefix}: for EVERY value-level trace of the atomics that the verified checker "
+                      "TR.Limit.checkTrace accepts (values chain; every write to the limit cell is made inside a feedback operation and stores "
+                      "aimdSuccNew / aimdFailNew / aimdSuccsNew n / vegasFailNew / one of the three results of vegasNew / the clamped initial value of a value "
+                      "the same operation read from the cell earlier; every write to the in-flight counter is one read-modify-write, +1 inside an admitted "
+                      "poll_ready+call, -1 from a value >= 1 inside an operation ending a held call) - any number of threads and operations, any "
+                      "interleaving, however the implementation sequences its atomics: every value the limit cell ever holds and every value limit() "
+                      "returns is in [min, max] (also across the rounds of a case, from the constructor's clamped initial value on), and the counter is the "
+                      "initial value + admitted - ended calls at quiescence (up to the operations in progress at every point). "
+                      "Services {services_share_algorithm, services_independent, new_service_starts_empty, services_in_flight_exact}: any number of "
+                      "services built from one layer value (or clones of it) share the algorithm and nothing else; a step on one leaves the others' "
+                      "counters, callers and handles untouched; every service's counter equals the number of ITS running calls after any history.",
         "level_note": LEVEL_NOTE,
         "trusted": ["transcription of AimdController / Aimd / Vegas at atomic-operation granularity in TR.Model.Limit and of AdaptiveService in "
                     "TR.Model.Adaptive (sampled by the correspondence check: same schedule, same step/skip trace, same reads, same final limit)",
@@ -853,7 +1143,11 @@ SPECS = {
                     "relaxed atomics as sequentially consistent per location",
                     "f64: dyadic decrease factors and power-of-two latencies make the arithmetic exact; Vegas queue estimate = exact binary64 "
                     "round-to-nearest-even transcription in Nat (Limit.queueEst), not used by any theorem",
-                    "harness: baton scheduler, clock_gettime interposition, manual poller; python diff/monitors"],
+                    "harness: baton scheduler, clock_gettime interposition, manual poller; python diff/monitors",
+                    "protocol level: the observer hook reports each hooked operation's value before / after (store observed through swap); the begin / end "
+                    "markers of the API calls and the identification of the limit / in-flight cell (the one cell limit() / in_flight() loads) are the "
+                    "harness's; a case on which only the protocol-level model agrees counts as agreeing (evidence: agree_at_protocol_level_only)",
+                    "the no-atomic entry points (record_dropped, min_limit, max_limit) take one turn each at an explicit yield point of the harness"],
         "assumptions": ["min_limit <= max_limit and decrease_factor in [0,1] (the property's quantifier; Rust's clamp panics for min > max)",
                         "usize/u64 modelled as unbounded Nat; values below 2^53",
                         "one poll of one call future is atomic for the single-threaded callers; in the rounds of threads the yield points are the "
